@@ -199,8 +199,14 @@ func formatValue(value interface{}, module *parser.Frugal) template.HTML {
 		display := "{ "
 		prefix := ""
 		for _, keyValue := range v {
+			// A key is a field name (written as a string or as an
+			// identifier) or, in a map constant, a value of any type.
+			key := keyValue.Key
+			if identifier, ok := key.(parser.Identifier); ok {
+				key = string(identifier)
+			}
 			display += fmt.Sprintf("%s%s = %s", prefix,
-				formatValue(keyValue.KeyToString(), module), formatValue(keyValue.Value, module))
+				formatValue(key, module), formatValue(keyValue.Value, module))
 			prefix = ", "
 		}
 		display += " }"
